@@ -69,6 +69,11 @@ def path_patterns(tier='quick', alpha='a'):
     for c in '@+*?':
         op = (('star',) if c == '*' else ('q',) if c == '?' else L(c))
         pats += [(op, L('('), L(alpha), ('sep',), ('gs',), ('sep',), L('b')), (op, L('('), L(alpha), esep, L('b')), (op, L('('), ('sep',), ('gs',)), (L('x'), op, L('('), L(alpha), ('sep',), ('gs',), ('sep',), ('q',))]
+    # a written dot at the start of an alternative of one group says nothing about a LATER segment: `!(b)` there still refuses `.` and `..`
+    for k in '@+?*':
+        g = ('ext', k, ((L('.'), L(alpha)), (L('x'),)))
+        neg = ('ext', '!', ((L('b'),),))
+        pats += [(g, ('sep',), neg), (g, L('x'), ('sep',), neg), (g, ('sep',), neg, ('sep',), L(alpha)), (g, ('sep',), ('star',)), (g, ('sep',), ('ext', '@', ((('star',),),)))]
     # `/` inside brackets and groups: only generated where the statement is definite (none here)
     return list(dict.fromkeys(pats))
 
